@@ -15,6 +15,7 @@ import (
 	"io"
 	"math/big"
 	"net/http"
+	"net/url"
 	"os"
 	"path/filepath"
 	"sort"
@@ -34,26 +35,38 @@ func fmtViolation(tag string, desc map[string]any) {
 
 // ---- the canary tree ------------------------------------------------------------
 
+// The designated directories live in <outer>/n1/../n7/T, so that a name climbing out
+// of root/ (or a key name climbing out of root/etc/apk/keys, or a cache name climbing
+// out of cache/<repo>/<arch>) by up to nine levels still lands inside <outer>, which is
+// snapshotted as a whole: nothing the experiments feed the implementation climbs further.
 type canary struct {
-	top  string
-	snap map[string]string
+	outer string // the temporary directory; abstract name /O
+	top   string // <outer>/n1/.../n7/T; abstract name T
+	snap  map[string]string
 }
+
+const nest = "n1/n2/n3/n4/n5/n6/n7"
+
+// T is the abstract name of the directory that holds the designated directories.
+const T = "/O/" + nest + "/T"
 
 var designated = []string{"root", "cache", "tmp", "out"}
 
 func newCanary() *canary {
 	base := os.Getenv("C18_TMP")
-	top, err := os.MkdirTemp(base, "c18canary")
+	outer, err := os.MkdirTemp(base, "c18canary")
 	if err != nil {
 		fmt.Fprintln(os.Stderr, err)
 		os.Exit(1)
 	}
-	top, _ = filepath.EvalSymlinks(top)
-	c := &canary{top: top}
-	for _, d := range append(append([]string{}, designated...), "host", "host/sub", "root2", "cachefoo", "outside/deep") {
+	outer, _ = filepath.EvalSymlinks(outer)
+	top := filepath.Join(outer, nest, "T")
+	c := &canary{outer: outer, top: top}
+	for _, d := range append(append([]string{}, designated...), "host", "host/sub", "root2", "cachefoo", "outside/deep", "../sib2", "../../sib3") {
 		_ = os.MkdirAll(filepath.Join(top, d), 0o755)
 	}
-	for _, f := range []string{"decoy.txt", "host/file.txt", "root2/secret", "cachefoo/b", "outside/deep/file", "root/existing.txt", "out/existing.txt"} {
+	for _, f := range []string{"decoy.txt", "host/file.txt", "root2/secret", "cachefoo/b", "outside/deep/file", "root/existing.txt", "out/existing.txt",
+		"../up2.txt", "../sib2/f", "../../up3.txt", "../../sib3/f"} {
 		_ = os.WriteFile(filepath.Join(top, f), []byte("decoy "+f), 0o644)
 	}
 	_ = os.Symlink("host", filepath.Join(top, "hostlink"))
@@ -64,23 +77,23 @@ func newCanary() *canary {
 
 func (c *canary) close() {
 	os.Unsetenv("TMPDIR")
-	_ = filepath.Walk(c.top, func(p string, fi os.FileInfo, err error) error {
+	_ = filepath.Walk(c.outer, func(p string, fi os.FileInfo, err error) error {
 		if err == nil && fi.IsDir() {
 			_ = os.Chmod(p, 0o755)
 		}
 		return nil
 	})
-	_ = os.RemoveAll(c.top)
+	_ = os.RemoveAll(c.outer)
 }
 
 // snapshot: path -> type, permission bits, link count and content hash (or link target)
 func (c *canary) snapshot() map[string]string {
 	m := map[string]string{}
-	_ = filepath.Walk(c.top, func(p string, fi os.FileInfo, err error) error {
+	_ = filepath.Walk(c.outer, func(p string, fi os.FileInfo, err error) error {
 		if err != nil {
 			return nil
 		}
-		rel, _ := filepath.Rel(c.top, p)
+		rel, _ := filepath.Rel(c.outer, p)
 		var d string
 		switch {
 		case fi.Mode()&os.ModeSymlink != 0:
@@ -105,7 +118,7 @@ func (c *canary) snapshot() map[string]string {
 	return m
 }
 
-// outsideChanges: paths (as /T/...) created, modified or deleted outside the four
+// outsideChanges: paths (abstract, /O/...) created, modified or deleted outside the four
 // designated directories, sorted.
 func (c *canary) outsideChanges() []string {
 	after := c.snapshot()
@@ -127,27 +140,31 @@ func (c *canary) outsideChanges() []string {
 		}
 		inside := false
 		for _, d := range designated {
-			if p == d || strings.HasPrefix(p, d+"/") {
+			dd := filepath.Join(nest, "T", d)
+			if p == dd || strings.HasPrefix(p, dd+"/") {
 				inside = true
 			}
 		}
 		if !inside {
-			out = append(out, "/T/"+p)
+			out = append(out, "/O/"+p)
 		}
 	}
 	sort.Strings(out)
 	return out
 }
 
-func (c *canary) abstract(s string) string { return strings.ReplaceAll(s, c.top, "/T") }
+func (c *canary) abstract(s string) string {
+	s = strings.ReplaceAll(s, c.outer, "/O")
+	return strings.ReplaceAll(s, url.QueryEscape(c.outer), url.QueryEscape("/O")) // as a cache directory name
+}
 func (c *canary) concrete(s string) string {
-	if s == "/T" || strings.HasPrefix(s, "/T/") {
-		return c.top + s[2:]
+	if s == "/O" || strings.HasPrefix(s, "/O/") {
+		return c.outer + s[2:]
 	}
 	return s
 }
 
-var rootsTerm = gal.StrList([]string{"/T/root", "/T/cache", "/T/tmp", "/T/out"})
+var rootsTerm = gal.StrList([]string{T + "/root", T + "/cache", T + "/tmp", T + "/out"})
 
 // ---- operations on the directory-backed filesystem -------------------------------
 
@@ -209,7 +226,7 @@ func emitCanary(w *gal.Writer, class string, ops []dop, exact bool, changed []st
 		desc[k] = v
 	}
 	term := fmt.Sprintf("(CCanary {| k_base := %s; k_roots := %s; k_ops := %s; k_exact := %s; k_changed := %s |})",
-		gal.Str("/T/root"), rootsTerm, gal.List(ts), gal.Bool(exact), gal.StrList(changed))
+		gal.Str(T+"/root"), rootsTerm, gal.List(ts), gal.Bool(exact), gal.StrList(changed))
 	w.Add(gal.Case{Term: term, Desc: desc, Class: class, Trivial: len(ops) == 0})
 }
 
@@ -244,10 +261,10 @@ func randomOp(r *gal.Rand) dop {
 		return dop{Op: "OCreate", Name: name}
 	case 5:
 		return dop{Op: "OSymlink", Name: gal.Pick(r, []string{"l", "l2", "a/l", "../sl", "l/l3"}),
-			Target: gal.Pick(r, []string{"/T/host", "../host", "/T/root2", "..", "/T/outside/deep", "a", "/T/root/a", "../../T"})}
+			Target: gal.Pick(r, []string{T+"/host", "../host", T+"/root2", "..", T+"/outside/deep", "a", T+"/root/a", "../../n7"})}
 	case 6:
 		return dop{Op: "OLink", Name: gal.Pick(r, []string{"stolen", "../stolen", "a/h"}),
-			Target: gal.Pick(r, []string{"../root2/secret", "../host/file.txt", "existing.txt", "../decoy.txt", "/T/decoy.txt", "../root/existing.txt", "../rootx"})}
+			Target: gal.Pick(r, []string{"../root2/secret", "../host/file.txt", "existing.txt", "../decoy.txt", T+"/decoy.txt", "../root/existing.txt", "../rootx"})}
 	case 7:
 		return dop{Op: "ORemove", Name: name}
 	case 8:
@@ -310,6 +327,10 @@ func entryOps(es []entry) []dop {
 }
 
 func runInstallCase(w *gal.Writer, class, backend string, es []entry) {
+	runInstallCaseX(w, class, backend, es, false)
+}
+
+func runInstallCaseX(w *gal.Writer, class, backend string, es []entry, exact bool) {
 	c := newCanary()
 	defer c.close()
 	var f apkfs.FullFS
@@ -337,7 +358,8 @@ func runInstallCase(w *gal.Writer, class, backend string, es []entry) {
 	if backend != "dirfs" {
 		ops = nil // an in-memory backend has no business touching the host at all
 	}
-	emitCanary(w, class+"-"+backend, ops, false, c.outsideChanges(), map[string]any{"entries": es, "backend": backend, "install_error": errStr(ierr)})
+	emitCanary(w, class+"-"+backend, ops, exact && backend == "dirfs", c.outsideChanges(),
+		map[string]any{"entries": es, "backend": backend, "install_error": c.abstract(errStr(ierr)), "through": "installAPKFiles"})
 }
 
 func randomEntries(r *gal.Rand) []entry {
@@ -358,10 +380,10 @@ func randomEntries(r *gal.Rand) []entry {
 			es = append(es, entry{Type: tar.TypeReg, Name: name, Data: "pkg data", Sum: r.Bool()})
 		case 3, 4:
 			es = append(es, entry{Type: tar.TypeSymlink, Name: gal.Pick(r, []string{"l", "l2", "a/l", "../sl"}),
-				Link: gal.Pick(r, []string{"/T/host", "../host", "/T/root2", "..", "/T/outside/deep", "a"})})
+				Link: gal.Pick(r, []string{T+"/host", "../host", T+"/root2", "..", T+"/outside/deep", "a"})})
 		default:
 			es = append(es, entry{Type: tar.TypeLink, Name: gal.Pick(r, []string{"stolen", "../stolen", "h"}),
-				Link: gal.Pick(r, []string{"../root2/secret", "../host/file.txt", "existing.txt", "../decoy.txt", "/T/decoy.txt"})})
+				Link: gal.Pick(r, []string{"../root2/secret", "../host/file.txt", "existing.txt", "../decoy.txt", T+"/decoy.txt"})})
 		}
 	}
 	return es
@@ -396,7 +418,7 @@ func runCacheCase(w *gal.Writer, keyURL string, etag []string) {
 	}
 	desc := map[string]any{"kind": "cache", "key_url": keyURL, "etag_header": etag, "request_path": path, "changed_outside": changed, "error": errStr(ierr)}
 	term := fmt.Sprintf("(CCache {| q_root := %s; q_roots := %s; q_ustr := %s; q_path := %s; q_etag := %s; q_changed := %s |})",
-		gal.Str("/T/cache"), rootsTerm, gal.Str(ustr), gal.Str(path), gal.Opt(etag != nil, gal.StrList(etag)), gal.StrList(changed))
+		gal.Str(T+"/cache"), rootsTerm, gal.Str(ustr), gal.Str(path), gal.Opt(etag != nil, gal.StrList(etag)), gal.StrList(changed))
 	w.Add(gal.Case{Term: term, Desc: desc, Class: "cache-keyring", Trivial: false})
 }
 
@@ -468,14 +490,13 @@ func runKeyringDirfsCase(w *gal.Writer, element string) {
 	defer c.close()
 	f := apkfs.DirFS(filepath.Join(c.top, "root"))
 	_, err := initKeyringOn(f, element)
-	ops := []dop{{Op: "OMkdirAll", Name: "etc/apk/keys"}, {Op: "OWriteFile", Name: filepath.Join("etc", "apk", "keys", filepath.Base(element))}}
-	emitCanary(w, "keyring-dirfs", ops, false, c.outsideChanges(), map[string]any{"element": element, "error": errStr(err)})
+	emitKeyring(w, "keyring-dirfs", c, element, err, nil)
 }
 
 func stageCanary(w *gal.Writer, r *gal.Rand) {
 	// -- corpus: the recorded findings and their confined neighbours --------------
 	runDirfsCase(w, "dirfs-op", []dop{{Op: "OWriteFile", Name: "../escaped.txt"}}, true)                                    // C18-F1
-	runDirfsCase(w, "dirfs-op", []dop{{Op: "OSymlink", Name: "l", Target: "/T/host"}, {Op: "OWriteFile", Name: "l/x"}}, false) // C18-F2
+	runDirfsCase(w, "dirfs-op", []dop{{Op: "OSymlink", Name: "l", Target: T+"/host"}, {Op: "OWriteFile", Name: "l/x"}}, false) // C18-F2
 	runDirfsCase(w, "dirfs-op", []dop{{Op: "OSymlink", Name: "l2", Target: "../host"}, {Op: "OWriteFile", Name: "l2/y"}}, false)
 	runDirfsCase(w, "dirfs-op", []dop{{Op: "OLink", Name: "stolen", Target: "../root2/secret"}}, false) // C18-F3
 	runDirfsCase(w, "dirfs-op", []dop{{Op: "OLink", Name: "stolen", Target: "../host/file.txt"}}, false)
@@ -505,13 +526,13 @@ func stageCanary(w *gal.Writer, r *gal.Rand) {
 		{{Type: tar.TypeDir, Name: "../d"}, {Type: tar.TypeReg, Name: "../d/f", Data: "x", Sum: true}},
 		{{Type: tar.TypeReg, Name: "/etc/c18-abs", Data: "x", Sum: true}},
 		{{Type: tar.TypeDir, Name: "/abs-dir"}},
-		{{Type: tar.TypeSymlink, Name: "l", Link: "/T/host"}, {Type: tar.TypeReg, Name: "l/x", Data: "x", Sum: true}},
-		{{Type: tar.TypeSymlink, Name: "l", Link: "/T/host"}, {Type: tar.TypeDir, Name: "l/newdir"}},
+		{{Type: tar.TypeSymlink, Name: "l", Link: T+"/host"}, {Type: tar.TypeReg, Name: "l/x", Data: "x", Sum: true}},
+		{{Type: tar.TypeSymlink, Name: "l", Link: T+"/host"}, {Type: tar.TypeDir, Name: "l/newdir"}},
 		{{Type: tar.TypeSymlink, Name: "l2", Link: "../host"}, {Type: tar.TypeDir, Name: "l2/newdir"}},
 		{{Type: tar.TypeSymlink, Name: "../sl", Link: "/etc/passwd"}},
 		{{Type: tar.TypeLink, Name: "stolen", Link: "../root2/secret"}},
 		{{Type: tar.TypeLink, Name: "stolen", Link: "../host/file.txt"}},
-		{{Type: tar.TypeLink, Name: "stolen", Link: "/T/decoy.txt"}},
+		{{Type: tar.TypeLink, Name: "stolen", Link: T+"/decoy.txt"}},
 		{{Type: tar.TypeLink, Name: "../stolen", Link: "existing.txt"}},
 		{{Type: tar.TypeDir, Name: "usr"}, {Type: tar.TypeReg, Name: "usr/ok", Data: "fine", Sum: true}},
 	}
@@ -554,5 +575,6 @@ func stageCanary(w *gal.Writer, r *gal.Rand) {
 		runDiscoveryCase(w, "dirfs", kid)
 		runDiscoveryCase(w, "memfs", kid)
 	}
+	stageCanary2(w, r)
 	fmt.Printf("STAT %s\n", `{"canary":"root/ cache/ tmp/ out/ + decoys (host/, root2/, cachefoo/, outside/, decoy.txt, hostlink); snapshot = path, type, permission bits, link count, content hash"}`)
 }
